@@ -1337,6 +1337,10 @@ func call(n *node) {
 		var arg *itype
 		if variadic >= 0 && i >= variadic {
 			arg = c0.typ.arg[variadic].val
+			if hasVariadicArgs {
+				// The argument followed by an ellipsis is the variadic parameter itself.
+				arg = c0.typ.arg[variadic]
+			}
 		} else {
 			arg = c0.typ.arg[i]
 		}
@@ -1652,9 +1656,13 @@ func callBin(n *node) {
 			if c.kind == basicLit || c.rval.IsValid() {
 				// Convert literal value (untyped) to function argument type (if not an interface{})
 				var argType reflect.Type
-				if variadic >= 0 && i+rcvrOffset >= variadic {
+				switch {
+				case n.action == aCallSlice && i+rcvrOffset == variadic:
+					// The argument followed by an ellipsis is the variadic parameter itself.
+					argType = funcType.In(variadic)
+				case variadic >= 0 && i+rcvrOffset >= variadic:
 					argType = funcType.In(variadic).Elem()
-				} else {
+				default:
 					argType = funcType.In(i + rcvrOffset)
 				}
 				convertLiteralValue(c, argType)
@@ -3499,7 +3507,8 @@ func _append(n *node) {
 	next := getExec(n.tnext)
 
 	switch l := len(n.child); {
-	case l == 2:
+	case l == 2 || l == 3 && n.action == aCallSlice && n.child[2].typ.cat == nilT:
+		// Nothing to append: append(s) or append(s, nil...).
 		n.exec = func(f *frame) bltn {
 			dest(f).Set(value(f))
 			return next
